@@ -8,7 +8,7 @@ from ..ref import refsem
 ID = 'C05'
 LEVEL = 'exploration'
 SALTS = 8
-RULE = ('each run = (o) 7 members of the enumeration of all (base sentence x non-empty subset of the literal constraints at one world) of its logic, swept completely by one quick batch, arrival order / world / fork seeded; (i) 6 literal histories: in one logic (stratified over the 57) a rule-only tableau receives a seeded subset of '
+RULE = ('each run = (o) 7 members of the enumeration of all (base sentence x non-empty subset of the literal constraints at one world) of its logic, swept completely by one quick batch, arrival order / world / fork seeded; (ib) 6 interleaved histories (0-10 unrelated padding nodes, a fork after which BOTH sides keep receiving nodes, step() calls between arrivals while a second root branch has pending work), judged per branch; (i) 6 literal histories: in one logic (stratified over the 57) a rule-only tableau receives a seeded subset of '
         'the literal constraints over one letter / predication / opaque sentence (sentence or negation x designated/undesignated '
         'x world 0/1; plus self-identity / existence literals in the classical family) in a seeded arrival order, sometimes '
         'split across a fork, sometimes with an equal-content duplicate node, under a seeded hash order; closed <=> R1 finds '
@@ -25,7 +25,22 @@ def key_of(spec, clause):
     sem = refsem.get(spec['logic'])
     return '%s|%s|%s' % (clause, sem.base, spec['kind'])
 
+def judge_interleaved(ctx, spec, record=True):
+    v, info = branchsim.execute_interleaved(spec)
+    ctx.log(spec['logic'], branchsim.show(spec['nodes']), spec['events'], info['closed'], None if v is None else v[0])
+    if record:
+        ctx.count('evaluations')
+        ctx.count('interleaved_histories')
+        ctx.count('fault.step_between_arrivals', info['stepped'])
+        ctx.count('fault.fork_both_sides_extended', sum(1 for e in spec['events'] if e[0] == 'fork'))
+        ctx.count('probe.padded_over_index_threshold', 1 if len(spec.get('pads', ())) > 6 else 0)
+    if v is not None:
+        clause, msg = v
+        ctx.violation('%s/%s' % (ID, clause), key_of(spec, clause) + '|interleaved', '%s: %s' % (spec['logic'], msg), dict(literals=spec))
+
 def judge_literals(ctx, spec, record=True):
+    if spec.get('interleaved'):
+        return judge_interleaved(ctx, spec, record)
     v, info = branchsim.execute_literals(spec)
     ctx.log(spec['logic'], branchsim.show(spec['nodes']), spec['split'], info['closed'], None if v is None else v[0])
     if record:
@@ -135,6 +150,10 @@ def run(ctx):
         judge_literals(ctx, branchsim.gen_literal_case(rng, sem))
         if ctx.violations:
             return
+    for k in range(6):
+        judge_interleaved(ctx, branchsim.gen_interleaved_case(rng, sem))
+        if ctx.violations:
+            return
     prems, conc = proofwl.gen_case(rng, logic)
     srng = ctx.rng('schedule')
     opts = proofwl.gen_opts(srng, models=False)
@@ -152,6 +171,27 @@ def minimise(ctx, v):
     if 'literals' not in v.spec:
         return None
     from ..kernel import ddmin
+    if v.spec['literals'].get('interleaved'):
+        # shrink the event list (events refer to nodes by index, so the node list stays)
+        spec = dict(v.spec['literals'])
+        def fails_ev(events):
+            sp = dict(spec, events=events)
+            try:
+                r, _ = branchsim.execute_interleaved(sp)
+            except Exception:
+                return False
+            return r is not None and key_of(sp, r[0]) + '|interleaved' == v.key
+        if not fails_ev(spec['events']):
+            return None
+        spec['events'] = ddmin(spec['events'], fails_ev, budget=60)
+        for pads in ([], spec.get('pads', [])[:7]):
+            if fails_ev(spec['events']) and branchsim.execute_interleaved(dict(spec, pads=pads))[0] is not None:
+                spec['pads'] = pads
+                break
+        r, _ = branchsim.execute_interleaved(spec)
+        if r is None:
+            return None
+        return Violation(v.clause, v.key, '%s: %s' % (spec['logic'], r[1]), dict(literals=spec), None)
     spec = dict(v.spec['literals'])
     def fails(nodes):
         sp = dict(spec, nodes=nodes, split=None)
